@@ -790,6 +790,9 @@ class ExcelInPython:
         return find_elem.span(0)[0] + 1 if find_elem else '#VALUE!'
 
     def _excel_value_to_string(self, value: Any):
+        if isinstance(value, self.EmptyCell):
+            return ''
+
         if isinstance(value, (datetime.datetime)):
             base_date = datetime.datetime(1899, 12, 30)
             return str((value - base_date).days)
